@@ -138,5 +138,77 @@ CLAIMS.update({
                 "check (C17 covers free_glyph). Histories of any length follow from the inductive invariant img_wf, which is argued.",
     },
 })
+CLAIMS.update({
+    "C02": {
+        "text": "'All implementations bit-identical' is decided as 'each implementation meets the same C01 per-channel specification': the SSE2 "
+                "combiners (fetched from the table built by the real _pixman_implementation_create_sse2, so mask constants and operator "
+                "bindings are included) are proved per pixel (scalar head/tail kernels) and per 4-pixel vector body against the spec for "
+                "every pixel value; dispatch: lookup_composite returns the first matching entry in chain order under a symbolic fast-path "
+                "cache invariant, combiner/iter/blt/fill delegation, PIXMAN_DISABLE token matching and 'wholeops'.",
+        "note": "Trusted: 21 C models of __builtin_ia32_* (cross-checked natively against the real instructions on 2*10^5 vectors each). "
+                "Bounded: dispatch on stub chains (3 implementations x 3 entries), SSE2 row structure for fixed alignment/width cases, C fast "
+                "paths at width 3. NOT covered: the sse2_composite_* routines except through their combiners (107 of 113 table entries), "
+                "84 of 95 C fast paths, MMX, SSSE3 fetcher, cpuid detection; see evidence/C02_tables.json.",
+    },
+    "C03": {
+        "text": "_pixman_compute_composite_region32 (+ clip_general_image, clip_source_image, real pixman-region32.c) is proved for every flag "
+                "combination with single-rectangle clips: TRUE => ghost point in region <=> in request, destination bounds, destination clip, "
+                "alpha-map box, enabled source and mask clips (translated); FALSE <=> that set is empty. The per-box dispatch loop of "
+                "pixman_image_composite32 hands each routine exactly the box with correctly translated source/mask origins; the pixbuf "
+                "special case, IS_OPAQUE promotion and mask elision conditions are proved on the pre-lookup code.",
+        "note": "Coordinates within +-2^29; multi-rectangle clips and alpha-map clip regions are out of scope (pixman_op asserted unreachable); "
+                "that each routine writes only inside its box is covered only for routines under contract in C01/C02/C10/C19. "
+                "Known finding: pixbuf path ignores differing rowstride/size. One defect (zero-size alpha map) repaired via the "
+                "intersect_rect fix: commit.",
+    },
+    "C04": {
+        "text": "Memory-safety obligations (bounds, pointer) are on in every job of every property. C04-specific: analyze_extent / "
+                "compute_transformed_extents: COVER_CLIP_NEAREST/BILINEAR promise the sampled taps of the four transformed corners inside the "
+                "image for every matrix (transform stub with ghost results) and the 16.16 fit of the expanded extents; identity case per "
+                "ghost pixel; pixman_malloc_ab_plus_c and the overflow predicates against 64/128-bit arithmetic.",
+        "note": "Affine convexity (corners inside => every pixel centre inside) is not machine-checked; create_bits stride arithmetic and "
+                "_pixman_multiply_overflows_size are unverified (64-bit division does not finish); general_composite_rect buffer carving, "
+                "pixman_malloc_ab/abc only in the thorough tier (10-15 min each).",
+    },
+    "C08": {
+        "text": "Sampling arithmetic written from rounding.txt: repeat() for NONE/PAD (all inputs) and NORMAL range+termination (loop "
+                "contracts), nearest = floor(x - e) then the repeat map and bilinear neighbours/weights from x - 1/2 (argument level, all "
+                "positions), 7-bit bilinear weights, convolution tap alignment/rounding/clamping of the signed sum, affine stepping and the "
+                "signed projective quotient; wide fetchers never skip a pixel with a non-zero mask. Three defects found here were repaired "
+                "by fix: commits (unsigned convolution totals, unsigned projective division, wide mask test).",
+        "note": "Bounded: NORMAL congruence |c| <= 4 size, REFLECT/MOD per fixed size, bilinear blend per fixed weight pair, 1x1 kernels only, "
+                "scanline width <= 3, projective quotient at reduced operand width. repeat() and bilinear_interpolation are uninterpreted "
+                "stand-ins inside the fetch jobs. Scaled fast paths, SSE2/SSSE3 fetchers, float fetchers: not covered. Known finding: left "
+                "shift of a negative value in the separable-convolution phase rounding.",
+    },
+    "C12": {
+        "text": "Sample grid: pixman_sample_ceil_y/floor_y and RENDER_SAMPLES_X for n in {1,4,8} over all 2^32 inputs against a literal grid; "
+                "per-row coverage of rasterize_edges_1/4/8 (both accessor builds): new value == saturate(old + number of grid columns in "
+                "[lx,rx)) for every edge position, neighbours and padding unchanged; row-level tiling lemma; edge stepping invariants; "
+                "pixman_rasterize_trapezoid / pixman_add_traps row range, clamps and walker positions with the rasteriser replaced by a "
+                "recording stub.",
+        "note": "Row jobs bounded in image width (96/8/8 pixels) and one sample row; a8 deferred fill only at the single-row flush; edge "
+                "conservation at reduced operand width; whole-call additivity and offset commutation are derived, not checked. The x grid "
+                "phase is the one the code implements (X_FRAC_FIRST - 2e). 7 genuine defects at extreme coordinates / in pixman_edge_step "
+                "are known findings.",
+    },
+    "C13": {
+        "text": "Integer/safety half only: gradient_walker_reset stop search stays inside the n+2 sentinel array and brackets the folded "
+                "position for every repeat mode; gradient_property_changed sentinels equal a literal table; _pixman_init_gradient allocation "
+                "size/failure/no leak; linear_get_scanline terminates and stays in bounds for coincident points.",
+        "note": "Bounded: <= 4 stops, one fixed degenerate linear case, width <= 2. radial/conical scanline safety NOT attempted. The colour half "
+                "of the property (interpolated colour within one 8-bit step, radial root selection, atan2) is not decidable with CBMC (no "
+                "reals, no models of sqrt/atan2) and is not claimed. Known findings: sentinel arithmetic overflows for absurd stop positions.",
+    },
+    "C18": {
+        "text": "Separable-convolution blocks: n_values == 4 + w*2^bx + h*2^by, exactly one allocation of that size, header decodes to the "
+                "table shape, x table at params+4 and y table directly after it ending the block, for all 8x8 kernel pairs, every positive "
+                "scale and 0..8 subsample bits; pixman_image_set_filter accepts exactly consistent blocks; create_1d_filter writes only "
+                "inside its table and every phase sums to exactly 65536.",
+        "note": "create_1d_filter: integral() is a stub (no exp/sin model) and each floor() step an arbitrary integer within the range |c| <= 8 "
+                "gives (assumed); tables <= 6 taps x 4 phases (bounded). Kernel values / Simpson accuracy not decidable. One defect "
+                "(width 0 write past the block) repaired; known findings: total == 0 (NaN), width >= 32768 header wrap.",
+    },
+})
 _NOT_BUILT = "check not built yet in this session (planned in DESIGN.md §5); not claimed until bin/check passes on the unchanged tree"
-NOT_APPLICABLE = {p: _NOT_BUILT for p in ["C02", "C03", "C04", "C08", "C12", "C13", "C18"]}
+NOT_APPLICABLE = {}
